@@ -105,6 +105,10 @@ func (b proxyBuilder) out(ft reflect.Type, results []interface{}, err error) (ou
 	}
 	for i := 0; i < m; i++ {
 		out[i] = reflect.ValueOf(results[i])
+		if !out[i].IsValid() {
+			// a nil result: the zero Value is not a legal return value of a MakeFunc function
+			out[i] = reflect.Zero(ft.Out(i))
+		}
 	}
 	for i := m; i < n; i++ {
 		out[i] = reflect.Zero(ft.Out(i))
